@@ -26,6 +26,7 @@ extern "C" __attribute__((used)) const char *__ubsan_default_options() { return 
 extern "C" __attribute__((used)) const char *__tsan_default_options() { return "exitcode=66:halt_on_error=1:report_signal_unsafe=0:ignore_interceptors_accesses=1:report_thread_leaks=0"; }
 
 std::string tls_check(uint64_t seed);
+std::string tls_free_running(uint64_t seed);
 int conform_run(bool verbose);
 int conform_dump_state();
 
@@ -464,6 +465,8 @@ int main(int argc, char **argv) {
   if (prop == "C20" && lane != "tsan") {
     for (uint64_t i = 0; i < (thorough ? 5000u : 400u) && tls_bad.empty(); i++) { tls_bad = tls_check(seed * 7919 + i); tls_runs++; }
   }
+  // (both lanes: under TSan this is where storage shared between two concurrent calls is reported as a race)
+  if (prop == "C20") for (uint64_t i = 0; i < (thorough ? 200u : 20u) && tls_bad.empty(); i++) { tls_bad = tls_free_running(seed * 104729 + i); tls_runs++; }
   Shared *sh = (Shared *) mmap(nullptr, sizeof(Shared), PROT_READ | PROT_WRITE, MAP_SHARED | MAP_ANONYMOUS, -1, 0);
   memset((void *) sh, 0, sizeof *sh);
   std::string tmpdir = std::string("build/tmp.") + std::to_string(getpid());
